@@ -579,7 +579,7 @@ def rterm(rng):
 def gen_formula(rng: random.Random, tier: str) -> dict:
     ops = []
     for _ in range(rng.randint(1, 14)):
-        op = rng.choice(["insert", "append", "set", "set", "del", "pop", "extend", "remove", "reverse", "slice_del", "slice_get", "slice_set", "iadd"])
+        op = rng.choice(["insert", "append", "set", "set", "del", "pop", "extend", "remove", "reverse", "slice_del", "slice_get", "slice_set", "iadd", "copy_edit"])
         ops.append([op, rng.random(), [rterm(rng) for _ in range(rng.randint(0, 3))] if op in ("extend", "slice_set", "iadd") else rterm(rng)])
     return {"ordering": rng.choice(["none", "degree", "sort", "sort"]),
             "init": [rterm(rng) for _ in range(rng.randint(0, 6))], "ops": ops}
@@ -674,6 +674,15 @@ def judge_formula(case) -> Outcome:
                 ts = [mk_term(x) for x in arg]
                 f += ts
                 model += ts
+            elif op == "copy_edit":  # a copy is a sequence of its own: editing it leaves the original as it was
+                import copy
+
+                g = copy.copy(f) if r < 0.6 else copy.deepcopy(f)
+                g.insert(0, mk_term(arg))
+                gd = [t.degree for t in g]
+                if len(g) != n + 1 or (ordering != "none" and gd != sorted(gd)) or getattr(g.ordering, "value", g.ordering) != ordering:
+                    out.fail("c19.formula_copy", f"copy of {list(f)} after insert: {list(g)} (ordering {g.ordering})")
+                out.see("copies_edited")
             elif op == "remove" and n:
                 t = model[int(r * n)]
                 f.remove(t)
